@@ -10,6 +10,16 @@ import (
 
 var notFoundError = errors.New("data not found")
 
+// the device address as text, empty as long as it is not known,
+// which is the case for a remote device until its detailed discovery data arrived
+func deviceAddressString(address *model.AddressDeviceType) string {
+	if address == nil {
+		return ""
+	}
+
+	return string(*address)
+}
+
 func dataCopyOfType[T any](rdata any) (T, error) {
 	x := any(*new(T))
 
